@@ -132,6 +132,20 @@ let () = iter_lines (fun line ->
              Buffer.add_string buf (if r = 0 then "1" else if r > 0 then "0" else "2")
            done;
            Buffer.add_string buf ",d0")
+      | e :: r when e.[0] = 'W' ->
+        (* composite event W<hold>^<application event>^<peer message>: for the histories it is used in,
+           the repaired code behaves as if the two had happened one after the other *)
+        (match String.split_on_char '^' e with
+         | [_; e1; e2] ->
+           (match step c s (event_of e1) with
+            | Ok (s1, o1) ->
+              (match step c s1 (event_of e2) with
+               | Ok (s2, o2) -> Buffer.add_string buf ("|" ^ show_outputs (o1 @ o2) ^ "~" ^ show_view s2); go s2 r
+               | Panic _ -> Buffer.add_string buf "|PANIC"
+               | Stuck _ -> Buffer.add_string buf "|STUCK")
+            | Panic _ -> Buffer.add_string buf "|PANIC"
+            | Stuck _ -> Buffer.add_string buf "|STUCK")
+         | _ -> failwith ("composite " ^ e))
       | e :: r ->
         (match step c s (event_of e) with
          | Ok (s1, o) ->
